@@ -2,7 +2,8 @@ CONSTANTS
   Mods <- ChainMods
   Imports <- ChainImports
   Targets <- ChainTargets
-  Variants <- V2
+  Variants <- V3
+  BodyOf <- Body3
   MaxOps = 7
   MaxTorn = 0
   TransitiveKey = FALSE
